@@ -1,12 +1,122 @@
-(* C10 — Fork-choice graph queries agree with the tree that was inserted. Statements only (proofs in Forkchoice/*Proofs.v). *)
-From Coq Require Import NArith List.
-From V Require Import Base.U64 Base.Outcome Forkchoice.ProtoArray Forkchoice.Wrapper Forkchoice.TreeSpec Forkchoice.GhostSpec
-     Forkchoice.Step Forkchoice.Refuted.
+(* C10 — Justification/finalization updates terminate, prune exactly, and keep the head.
+   Statements only; proofs in Forkchoice/{ArrayProofs,UpdateProofs,GhostProofs,Refuted}.v. *)
+From Coq Require Import NArith ZArith List Bool.
+From V Require Import Base.U64 Base.Outcome Forkchoice.ProtoArray Forkchoice.VoteStore Forkchoice.Wrapper Forkchoice.TreeSpec
+     Forkchoice.GhostSpec Forkchoice.Step Forkchoice.ArrayProofs Forkchoice.UpdateProofs Forkchoice.GhostProofs Forkchoice.Refuted.
 Import ListNotations.
 Local Open Scope N_scope.
 
-Theorem C10_insubtree_sibling_leaves_snapshot_refuted :
-  last_out (run_from pinned (init0 false) h_siblings) = Ok (RPair false true) /\
-  last_exp (spec_from (init0 false) h_siblings) = EVal (RPair false false) /\
-  last_out (run_from fixed (init0 false) h_siblings) = Ok (RPair false false).
-Proof. exact insubtree_sibling_leaves_refuted. Qed.
+(* The full property: over every history in the domain, every update/pin call, every sink call, and every call after finalization
+   moved, of the Impl is what the Spec says (Step.spec_update: older-or-equal pairs are no-ops, pairs outside the finalized or
+   pinned subtree are refused, a moved finalization drops exactly the non-descendants, each reported once with the canonical flag). *)
+Definition C10_full : Prop := forall i ops, refines sel_c10 true i ops = true.
+Definition C10_update_refines : Prop := forall i ops, refines sel_c10 false i ops = true.
+   (* with the hypothesis excluding the known finding prune_keeps_late_fork. NOT proved in full. Proved for all histories /
+      states / sinks: update_returns (blocking half), update_older_noop, update_outside_refused (finalized side),
+      prune_reports_once (what is dropped = what the sink acknowledged, a prefix of the table, each once, in order), and at the
+      level of the Spec: prune_exact, head_in_finalized_subtree. Not proved: "never Panic" (index invariants of the array
+      across ApplyScoreChanges and OnPrune), retained_queries_unchanged, canonical flags; these are checked on every run. *)
+
+(* update_returns, blocking half, for ALL histories: starting from the constructor, no call of any history waits on the mutex *)
+Theorem C10_never_blocks : forall ops w, w_locked w = false ->
+  Forall (fun r => fst r <> Blocked) (impl_run fixed w ops).
+Proof. exact run_never_blocks. Qed.
+Print Assumptions C10_never_blocks.
+Theorem C10_constructor_lock_free : forall i u, snd (impl_init fixed i) = Ok u -> w_locked (fst (impl_init fixed i)) = false.
+Proof. exact init_free. Qed.
+Print Assumptions C10_constructor_lock_free.
+(* every single exported call, on a free lock, with any arguments and any sink: does not block, and frees the lock when it returns *)
+Theorem C10_step_returns_free : forall o w, w_locked w = false ->
+  snd (impl_step fixed o w) <> Blocked /\ (snd (impl_step fixed o w) <> OutOfFuel -> w_locked (fst (impl_step fixed o w)) = false).
+Proof. intros o w H. exact (step_returns_free o w H). Qed.
+Print Assumptions C10_step_returns_free.
+
+(* update_older_noop: older or equal checkpoints (by epoch) change nothing, for every state, trigger, roots, balances, sink *)
+Theorem C10_update_older_noop : forall sink trigger j f bal w,
+  w_locked w = false -> fst j <= fst (w_just w) -> fst f <= fst (w_fin w) ->
+  W_UpdateJustified fixed sink trigger j f bal w = (w, Ok tt).
+Proof. exact update_older_noop. Qed.
+Print Assumptions C10_update_older_noop.
+
+(* update_outside_refused: a finalized checkpoint that the array reports unknown or outside the current finalized subtree is
+   refused; only the array's links may have been refreshed (pa'), nothing else of the state changes, the sink is not called *)
+Theorem C10_update_outside_refused : forall sink trigger j f bal w pa' u i,
+  w_locked w = false ->
+  (fst (w_just w) < fst j \/ fst (w_fin w) < fst f) ->
+  (match w_pin w with Some p => trigger = fst p | None => True end) ->
+  cp_eqb (w_fin w) f = false -> fst f <= fst j ->
+  InSubtree fixed (snd (w_fin w)) (snd f) (w_pa w) = (pa', Ok (u, i)) -> (u = true \/ i = false) ->
+  W_UpdateJustified fixed sink trigger j f bal w = (set_pa w pa', Err).
+Proof. exact update_outside_refused. Qed.
+Print Assumptions C10_update_outside_refused.
+
+(* prune: for every array state, anchor and sink behaviour (including a sink failing at any call): the nodes removed are a prefix
+   of the node table (k nodes); with a sink exactly those were handed to it, once each, in table order; if the sink refused a
+   node that node is the one extra call, it stays, and the prune reports the failure; a nil sink is never called *)
+Theorem C10_prune_reports_once : forall sink ar asl pa pa' calls failed,
+  OnPrune_core fixed sink ar asl pa = (pa', Ok (calls, failed)) ->
+  exists pa1 k,
+    map n_ref (pa_nodes pa') = skipn k (map n_ref (pa_nodes pa1)) /\
+    (pa_sink_nil pa1 = false -> map fst calls = firstn (k + if failed then 1 else 0) (map n_ref (pa_nodes pa1))) /\
+    (pa_sink_nil pa1 = true -> calls = [] /\ failed = false) /\
+    (failed = true -> (k < length (pa_nodes pa1))%nat).
+Proof. exact prune_reports_once. Qed.
+Print Assumptions C10_prune_reports_once.
+
+(* prune_exact and head_in_finalized_subtree at the level of the Spec: the Spec's prune keeps exactly the descendants of the new
+   finalized node, drops exactly the others, and every head found afterwards descends from it *)
+Theorem C10_spec_prune_exact : forall s a n,
+  In n (ss_tree (prune_to s a)) <-> In n (ss_tree s) /\ is_desc (ss_tree s) a n = true.
+Proof. exact spec_prune_exact. Qed.
+Theorem C10_spec_dropped_exact : forall t a n,
+  known t a = true -> (In n (to_drop t a) <-> In n t /\ is_desc t a n = false).
+Proof. exact spec_dropped_exact. Qed.
+Theorem C10_spec_head_in_finalized_subtree : forall s a start e,
+  spec_find_head (prune_to s a) start = Ok e -> is_desc (ss_tree s) a e = true.
+Proof. exact spec_head_in_finalized_subtree. Qed.
+Print Assumptions C10_spec_head_in_finalized_subtree.
+
+(* Defects of the pinned snapshot *)
+Theorem C10_update_relock_snapshot_refuted :
+  last_out (run_from pinned (init0 false) h_advance) = Blocked /\
+  last_exp (spec_from (init0 false) h_advance) = EVal RUnit /\
+  last_out (run_from fixed (init0 false) h_advance) = Ok RUnit.
+Proof. exact update_relock_refuted. Qed.
+Theorem C10_update_argorder_snapshot_refuted :
+  last_out (run_from pinned (init0 false) h_advance_pin) = Err /\
+  last_exp (spec_from (init0 false) h_advance_pin) = EVal RUnit /\
+  last_out (run_from fixed (init0 false) h_advance_pin) = Ok RUnit.
+Proof. exact update_argorder_refuted. Qed.
+Theorem C10_prune_loop_snapshot_refuted :
+  snd (last (run_from relock_only (init0 false) h_prune) (Err, [])) =
+    [((1, 0), true); ((1, 0), true); ((1, 0), true); ((1, 0), true); ((1, 0), true); ((1, 0), true); ((1, 0), true); ((1, 0), true)] /\
+  snd (last (run_from fixed (init0 false) h_prune) (Err, [])) =
+    [((1, 0), true); ((1, 1), true); ((2, 1), true); ((2, 2), true); ((3, 2), true); ((3, 3), true); ((4, 3), true); ((4, 4), true)].
+Proof. exact prune_loop_refuted. Qed.
+Theorem C10_prune_nil_sink_snapshot_refuted :
+  last_out (run_from relock_only (init0 true) (h_prune ++ [OGetSlot 3])) = Ok (RSlot (Some 2)) /\
+  last_exp (spec_from (init0 true) (h_prune ++ [OGetSlot 3])) = EVal (RSlot None) /\
+  last_out (run_from fixed (init0 true) (h_prune ++ [OGetSlot 3])) = Ok (RSlot None).
+Proof. exact prune_nil_sink_refuted. Qed.
+Theorem C10_prune_gap_anchor_snapshot_refuted :
+  last_out (run_from all_but_reparent (init0 false) h_gap_anchor) = Ok (RRef (3, 5)) /\
+  last_exp (spec_from (init0 false) h_gap_anchor) = EVal (RRef (5, 6)) /\
+  last_out (run_from fixed (init0 false) h_gap_anchor) = Ok (RRef (5, 6)).
+Proof. exact prune_gap_anchor_refuted. Qed.
+
+(* KNOWN FINDING prune_keeps_late_fork (repaired code too): the full statement fails exactly on that shape *)
+Theorem C10_prune_keeps_late_fork_refuted :
+  last_out (run_from fixed (init0 true) (h_prune ++ [OGetSlot 7])) = Ok (RSlot (Some 3)) /\
+  last_exp (spec_from (init0 true) (h_prune ++ [OGetSlot 7])) = EVal (RSlot None).
+Proof. exact prune_keeps_late_fork_refuted. Qed.
+Theorem C10_full_refuted_by_late_fork :
+  refines sel_c10 true (init0 false) h_prune = false /\ refines sel_c10 false (init0 false) h_prune = true.
+Proof. destruct late_fork_refutes_full as [_ [A [_ B]]]. exact (conj A B). Qed.
+
+(* non-vacuity: the full statement holds on a prune at a block node, a prune at an empty-slot node with later blocks and votes,
+   and a prune whose sink fails at its third call *)
+Example C10_nonvacuous :
+  refines sel_c10 true (init0 false) (h_chain ++ [OHead; OUpdate 6 (1, 5) (1, 5) (Some [10; 10; 10]) None; OHead; OChain 5 4; OGetSlot 2; OFin; OPin]) = true /\
+  refines sel_c10 true (init0 false) (h_gap_anchor ++ [OChain 3 4; OGetSlot 2; OBlock 3 9 6 1 1; OAtt 1 9 6; OAtt 2 9 6; OHead]) = true /\
+  refines sel_c10 true (init0 false) (h_chain ++ [OHead; OUpdate 6 (1, 5) (1, 5) (Some [10; 10; 10]) (Some 2); OHead; OGetSlot 1; OGetSlot 2]) = true.
+Proof. destruct refines_examples as [_ [_ [A [B [_ C]]]]]. exact (conj A (conj B C)). Qed.
